@@ -20,5 +20,17 @@ def oracle(case, out):
     return None
 
 
-def run(chk, replay=None):
+def run_prim(chk, replay=None):
     return c01.run_rt(chk, replay, oracle, "C04")
+
+
+def run(chk, replay=None):
+    """primitive level + generated-code level (emitted size() vs emitted encode(), gen family)"""
+    from .. import genextra
+    is_gen = replay is not None and isinstance(replay.get("case"), dict)
+    parts = []
+    if replay is None or not is_gen:
+        parts.append(("primitive", lambda c: run_prim(c, replay)))
+    if replay is None or is_gen:
+        parts.append(("generated", lambda c: genextra.run_c04g(c, replay, prop="C04")))
+    return chk.run_parts(parts)
